@@ -174,10 +174,12 @@ def check (c):
     viol = []
     mon  = {}
     worst = 0.0
+    margins = {}
     def judge (name, measured, allowed, msg):
         nonlocal worst
         mon [name] = mon.get (name, 0) + 1
         worst = max (worst, measured / allowed)
+        margins [name.split (':') [0]] = max (margins.get (name.split (':') [0], 0.0), measured / allowed)
         if not (measured <= allowed) and len (viol) < 8:
             viol.append (dict (monitor = name, key = name.split (':') [0], msg = msg, measured = measured, allowed = allowed))
     n = len (base ['geo'])
@@ -238,6 +240,6 @@ def check (c):
     sig = gen.signature (base, m0, extra = ['+'.join (sorted (kinds))])
     jt = [x for x in gen.junction_clusters (m0) if len (x) > 1]
     nontrivial = bool (jt) or m0.media is not None
-    return dict ( status = 'violation' if viol else 'held', sig = sig, nontrivial = nontrivial, margin = worst
+    return dict ( status = 'violation' if viol else 'held', sig = sig, nontrivial = nontrivial, margin = worst, margins = margins
                 , monitors = {k.split (':') [0]: v for k, v in mon.items ()}, violations = viol, info = dict (cond = o0 ['cond'], variants = sorted (kinds)))
 # end def check
